@@ -271,7 +271,7 @@ inline bool is_fixed_or_utc(const std::string& n) {
   return (d[0] * 10 + d[1]) * 3600 + (d[2] * 10 + d[3]) * 60 + d[4] * 10 + d[5] <= 86400;
 }
 
-inline Verdict judge(const Harness& h, const std::vector<Obs>& obs, const std::vector<Obs>& seq) {
+inline Verdict judge(const Harness& h, const std::vector<Obs>& obs, const std::vector<Obs>& seq, bool reload_check = true) {
   Verdict v;
   World& w = world();
   std::ostringstream dig;
@@ -288,6 +288,7 @@ inline Verdict judge(const Harness& h, const std::vector<Obs>& obs, const std::v
   for (auto& kv : byname) {
     for (size_t i = 1; i < kv.second.size(); ++i)
       if (kv.second[i] != kv.second[0]) v.c13.push_back("two loads of '" + kv.first + "' returned time_zone values that do not compare equal");
+    if (!reload_check) continue;
     cctz::time_zone again;
     cctz::load_time_zone(kv.first, &again);
     if (again != kv.second[0]) v.c13.push_back("a later re-load of '" + kv.first + "' returned a different identity than the racing loads");
